@@ -775,9 +775,21 @@ func (e *MetaCDC) checkCollectionInfos(infos []model.CollectionInfo) error {
 	return servererror.NewClientError(errMsg)
 }
 
-func (e *MetaCDC) startInternal(info *meta.TaskInfo, ignoreUpdateState bool) error {
+func (e *MetaCDC) startInternal(info *meta.TaskInfo, ignoreUpdateState bool) (err error) {
 	taskLog := log.With(zap.String("task_id", info.TaskID))
 	uKey := getTaskUniqueIDFromInfo(info)
+	defer func() {
+		if err == nil {
+			return
+		}
+		// a failed start should not leave a replicate entity that no task uses
+		e.replicateEntityMap.Lock()
+		if replicateEntity, ok := e.replicateEntityMap.data[uKey]; ok && replicateEntity.refCnt.Load() == 0 {
+			replicateEntity.entityQuitFunc()
+			delete(e.replicateEntityMap.data, uKey)
+		}
+		e.replicateEntityMap.Unlock()
+	}()
 
 	e.replicateEntityMap.RLock()
 	replicateEntity, ok := e.replicateEntityMap.data[uKey]
